@@ -393,26 +393,26 @@ Lemma rord_nonnil s l : rord s l -> l <> [] -> data (access s) <> [].
 Proof. intros R N H. apply N. exact (rord_nil s l R H). Qed.
 
 (* ---- the eviction loop of Put against make_room ---- *)
-Lemma put_loop2 fuel : forall (s : lru) cnt newSize log l vs,
-  O2 s l -> (length l < fuel)%nat -> cnt = Z.of_nat (length l) -> newSize = total l + vs -> vs <= lim ->
+Lemma put_loop2 fuel : forall (s : lru) cnt size log l vs,
+  O2 s l -> (length l < fuel)%nat -> cnt = Z.of_nat (length l) -> size = total l -> vs <= lim ->
   exists s' l' ev,
     make_room l vs = (l', ev) /\
-    put_evict_loop fuel s cnt newSize lim log = COk (s', Z.of_nat (length l'), total l' + vs, log ++ ev) /\
+    put_evict_loop fuel s cnt size lim vs log = COk (s', Z.of_nat (length l'), total l', log ++ ev) /\
     O2 s' l' /\ total l' + vs <= lim /\ (forall k, find l k = None -> find l' k = None) /\ clock s' = clock s.
 Proof.
-  induction fuel as [|f IH]; intros s cnt newSize log l vs HO Hf Hc Hn Hv; [lia|].
+  induction fuel as [|f IH]; intros s cnt size log l vs HO Hf Hc Hn Hv; [lia|].
   cbn [CacheModel.put_evict_loop]. unfold put_evict_continue.
-  destruct (newSize >? lim) eqn:G.
+  destruct (size >? lim - vs) eqn:G.
   - apply gtb_true in G.
     assert (Hne : l <> []) by (intro E; subst l; cbn in Hn; lia).
     destruct HO as (LI & HK & FR & R).
     destruct (evict2 s l (conj LI (conj HK (conj FR R))) (rord_nonnil s l R Hne)) as (s1 & k & v & l1 & HE & -> & HO1 & Hck).
     rewrite HE. cbn [cbind snd].
-    destruct (IH s1 (put_evict_count cnt) (put_newsize_evict newSize (sizeOf v)) (log ++ fires K V put_ncalls_onEvict 2 (k, v)) l1 vs HO1)
+    destruct (IH s1 (put_evict_count cnt) (put_evict_size size (sizeOf v)) (log ++ fires K V put_ncalls_onEvict 2 (k, v)) l1 vs HO1)
       as (s' & l' & ev & HM & HL & HO' & Hfit & Hfind & Hck').
     + cbn in Hf. lia.
     + unfold put_evict_count. cbn [length] in Hc. lia.
-    + unfold put_newsize_evict. cbn [CacheSpec.total] in Hn. lia.
+    + unfold put_evict_size. cbn [CacheSpec.total] in Hn. lia.
     + exact Hv.
     + exists s', l', ((k, v) :: ev).
       split. { cbn [CacheSpec.make_room]. assert (G' : total ((k, v) :: l1) + vs >? lim = true) by (apply gtb_true; lia).
@@ -420,7 +420,7 @@ Proof.
       split. { rewrite HL. unfold fires, put_ncalls_onEvict. cbn. rewrite <- app_assoc. reflexivity. }
       split; [exact HO'|]. split; [exact Hfit|]. split; [|congruence].
       intros k0 F0. apply Hfind. cbn in F0. destruct (keqb k k0); [discriminate|exact F0].
-  - apply gtb_false in G. exists s, l, []. rewrite app_nil_r. subst cnt newSize.
+  - apply gtb_false in G. exists s, l, []. rewrite app_nil_r. subst cnt size.
     split. { destruct l as [|e r]; [reflexivity|]. cbn [CacheSpec.make_room].
              assert (G' : total (e :: r) + vs >? lim = false) by (apply gtb_false; lia). rewrite G'. reflexivity. }
     split; [reflexivity|]. split; [exact HO|]. split; [lia|]. split; [auto|reflexivity].
@@ -500,18 +500,17 @@ Proof.
     assert (Tail : forall (s1 : lru) size1 cnt1 log1 l1,
       O2 s1 l1 -> find l1 k = None -> cnt1 = Z.of_nat (length l1) -> size1 = total l1 ->
       exists c',
-        (cdo (s2, cnt2, newSize2, log2) <-
-           put_evict_loop (S (length (data (access s1)))) s1 cnt1 (put_newsize_init size1 (sizeOf v)) lim log1;
+        (cdo (s2, cnt2, size2, log2) <-
+           put_evict_loop (S (length (data (access s1)))) s1 cnt1 size1 lim (sizeOf v) log1;
          cdo s3 <- lru_store s2 k v;
-         COk ({| store := s3; csize := put_final_size newSize2; count := put_final_count cnt2; limit := lim |}, true, log2))
+         COk ({| store := s3; csize := put_final_size size2 (sizeOf v); count := put_final_count cnt2; limit := lim |}, true, log2))
         = COk (c', true, log1 ++ snd (make_room l1 (sizeOf v))) /\
         R2 c' (fst (make_room l1 (sizeOf v)) ++ [(k, v)]) /\ top_last (store c')).
     { intros s1 size1 cnt1 log1 l1 HO1 F1 Hc1 Hs1.
       assert (Hlen : length (data (access s1)) = length l1).
       { destruct HO1 as (_ & _ & _ & RO). rewrite (Permutation_length (rord_perm _ _ RO)). unfold ents. rewrite map_length. reflexivity. }
-      destruct (put_loop2 (S (length (data (access s1)))) s1 cnt1 (put_newsize_init size1 (sizeOf v)) log1 l1 (sizeOf v) HO1)
+      destruct (put_loop2 (S (length (data (access s1)))) s1 cnt1 size1 log1 l1 (sizeOf v) HO1)
         as (s2 & l2 & ev & HM & HL & HO2 & Hfit & Hfind & _); try assumption; try lia.
-      { unfold put_newsize_init. lia. }
       destruct (store2 s2 l2 k v HO2 (Hfind k F1)) as (s3 & HSt & HO3 & _ & TL3).
       eexists. rewrite HL. cbn [cbind]. rewrite HSt. cbn [cbind]. rewrite HM. cbn [fst snd].
       split; [reflexivity|]. split; [|exact TL3]. unfold R2. cbn [store csize count limit].
